@@ -16,8 +16,23 @@ pub struct Adversary {
     cfg: Cfg,
     rng: Rng,
     client_addr: Option<String>,
+    /// the server's address (destination of the first datagram); the client may rebind, the server never does
+    server_addr: Option<String>,
     seen: Vec<Packet>,
     serial: u64,
+    /// injections of datagrams that belong to no connection (`inject_kind`)
+    stray_count: u64,
+    stray_last_at: u64,
+}
+
+/// address of the off-path attacker that sends datagrams belonging to no connection; replies to it are
+/// recorded (`to-attacker`) and go nowhere
+pub const ATTACKER: ([u8; 4], u16) = ([10, 66, 66, 66], 6666);
+const STRAY_SIZES: [usize; 14] = [1200, 43, 1199, 42, 1201, 44, 41, 100, 600, 20, 40, 58, 1350, 1472];
+const TINY_SIZES: [usize; 6] = [43, 42, 44, 41, 20, 40];
+
+fn attacker_addr() -> s2n_quic_core::inet::SocketAddress {
+    std::net::SocketAddr::from(ATTACKER).into()
 }
 
 impl Adversary {
@@ -26,8 +41,11 @@ impl Adversary {
             cfg: cfg.clone(),
             rng: Rng(crate::cfg::mix(cfg.seed ^ 0xadad_adad)),
             client_addr: None,
+            server_addr: None,
             seen: vec![],
             serial: 0,
+            stray_count: 0,
+            stray_last_at: u64::MAX,
         }
     }
 
@@ -45,8 +63,71 @@ impl Adversary {
     }
 }
 
-fn head(p: &[u8]) -> String {
-    trace::hex(&p[..p.len().min(48)])
+fn head_n(p: &[u8], n: usize) -> String {
+    trace::hex(&p[..p.len().min(n)])
+}
+
+/// a datagram of exactly `size` bytes (as far as the format allows) that belongs to no connection
+fn stray(kind: &str, size: usize, rng: &mut Rng) -> Vec<u8> {
+    let mut b: Vec<u8> = Vec::with_capacity(size.max(8));
+    match kind {
+        "unknown-version-long" => {
+            // Initial-type long header of a version the server does not support (not 0 = Version Negotiation)
+            b.push(0xc0 | (rng.next() as u8 & 0x0f));
+            b.extend_from_slice(&[0x1a, 0x2a, 0x3a, 0x4a]);
+            let cid = if size >= 30 { 8 } else { 2 };
+            b.push(cid as u8);
+            for _ in 0..cid {
+                b.push(rng.next() as u8);
+            }
+            b.push(cid as u8);
+            for _ in 0..cid {
+                b.push(rng.next() as u8);
+            }
+            b.push(0); // token length
+            let rest = size.saturating_sub(b.len() + 2);
+            b.push(0x40 | ((rest >> 8) as u8 & 0x3f));
+            b.push(rest as u8);
+            while b.len() < size {
+                b.push(rng.next() as u8);
+            }
+        }
+        "vn-packet" => {
+            // a Version Negotiation packet (version 0): must never be answered with Version Negotiation.
+            // The bytes after the connection ids (the "supported versions") are laid out like the rest of an
+            // Initial packet (token length 0, 2-byte length), so that an endpoint which failed to recognise
+            // version 0 would see a well-formed Initial of an unsupported version.
+            b.push(0xc0 | (rng.next() as u8 & 0x0f));
+            b.extend_from_slice(&[0, 0, 0, 0]);
+            let cid = if size >= 30 { 8 } else { 1 };
+            b.push(cid as u8);
+            for _ in 0..cid {
+                b.push(rng.next() as u8);
+            }
+            b.push(cid as u8);
+            for _ in 0..cid {
+                b.push(rng.next() as u8);
+            }
+            let hdr = b.len();
+            // at least one 4-byte version; total list length a multiple of 4
+            let list = (size.saturating_sub(hdr).max(4) / 4) * 4;
+            let rest = list - 3;
+            b.push(0);
+            b.push(0x40 | ((rest >> 8) as u8 & 0x3f));
+            b.push(rest as u8);
+            while b.len() < hdr + list {
+                b.push(rng.next() as u8);
+            }
+        }
+        _ => {
+            // "unknown-cid-short" / "tiny": short header, fixed bit, random connection id and payload
+            b.push(0x40 | (rng.next() as u8 & 0x3f));
+            while b.len() < size {
+                b.push(rng.next() as u8);
+            }
+        }
+    }
+    b
 }
 
 impl Network for Adversary {
@@ -75,9 +156,19 @@ impl Network for Adversary {
             if self.client_addr.is_none() {
                 self.client_addr = Some(src.clone());
             }
-            let c2s = self.client_addr.as_deref() == Some(src.as_str());
+            if self.server_addr.is_none() {
+                self.server_addr = Some(dst.clone());
+            }
+            let c2s = self.client_addr.as_deref() == Some(src.as_str()) || self.server_addr.as_deref() == Some(dst.as_str());
             let len = packet.payload.len();
+            let wire_head = self.cfg.wire_head;
+            let head = |p: &[u8]| head_n(p, wire_head);
             let hd = head(&packet.payload);
+            if packet.path.remote_address.0 == attacker_addr() {
+                // reply to a datagram that belongs to no connection: recorded, delivered nowhere
+                trace::line(format!("wire {now} {src} {dst} {len} to-attacker - {hd}"));
+                continue;
+            }
             let log = |action: &str, at: Option<u64>| {
                 trace::line(format!(
                     "wire {now} {src} {dst} {len} {action} {} {hd}",
@@ -157,13 +248,60 @@ impl Network for Adversary {
                 }
             }
             let at = base + jitter(&mut self.rng, &self.cfg);
-            trace::line(format!(
-                "wire {now} {src} {dst} {} {action} {at} {}",
-                packet.payload.len(),
-                head(&packet.payload)
-            ));
+            if action == "deliver" {
+                trace::line(format!("wire {now} {src} {dst} {} {action} {at} {}", packet.payload.len(), head(&packet.payload)));
+            } else {
+                // altered in flight: the length the sender put on the wire is appended as an extra token
+                trace::line(format!(
+                    "wire {now} {src} {dst} {} {action} {at} {} o{len}",
+                    packet.payload.len(),
+                    head(&packet.payload)
+                ));
+            }
             self.deliver(buffers, packet, now, at);
             count += 1;
+        }
+        let wire_head = self.cfg.wire_head;
+        let head = |p: &[u8]| head_n(p, wire_head);
+        // datagrams that belong to no connection, from a third address to the server (only when asked for)
+        if !self.cfg.inject_kind.is_empty() && count > 0 && self.rng.pm(self.cfg.inject_kind_pm) {
+            let client = self.client_addr.clone();
+            let c2s = self.seen.iter().find(|p| Some(format!("{}", p.path.local_address.0)) == client).cloned();
+            for k in 0..self.cfg.inject_burst.max(1) {
+                // every stray gets its own delivery instant so that the server's reply can be attributed to it
+                let at = now + self.cfg.delay_ms * 1000 + k;
+                let Some(mut p) = c2s.clone() else { break };
+                if self.stray_last_at != u64::MAX && at <= self.stray_last_at {
+                    continue;
+                }
+                const KINDS: [&str; 4] = ["unknown-cid-short", "unknown-version-long", "vn-packet", "tiny"];
+                let kind = if self.cfg.inject_kind == "mix" {
+                    KINDS[(self.stray_count % 4) as usize].to_string()
+                } else {
+                    self.cfg.inject_kind.clone()
+                };
+                let round = if self.cfg.inject_kind == "mix" { self.stray_count / 4 } else { self.stray_count };
+                let size = if self.cfg.inject_size != 0 {
+                    self.cfg.inject_size
+                } else if kind == "tiny" {
+                    TINY_SIZES[(round % TINY_SIZES.len() as u64) as usize]
+                } else {
+                    STRAY_SIZES[(round % STRAY_SIZES.len() as u64) as usize]
+                };
+                self.stray_count += 1;
+                self.stray_last_at = at;
+                p.payload = stray(&kind, size, &mut self.rng);
+                p.path.local_address = attacker_addr().into();
+                trace::line(format!(
+                    "wire {now} {} {} {} stray:{kind} {at} {}",
+                    p.path.local_address.0,
+                    p.path.remote_address.0,
+                    p.payload.len(),
+                    head(&p.payload)
+                ));
+                self.deliver(buffers, p, now, at);
+                count += 1;
+            }
         }
         // injections happen only while datagrams flow (keeps the executor's stall logic intact)
         if faults && count > 0 && !self.seen.is_empty() {
